@@ -120,14 +120,15 @@ def revTable (shape : List Nat) (a side : Nat) : List Int :=
 /-- which constructor calls `Grid(shape, voxel_size)` the code accepts (`h` = the per-axis list after the scalar /
 list normalisation): `face_vol` indexes `voxel_size[np.delete(arange(dim), d)]` (IndexError if too short in ≥ 2-D),
 then `assert len(voxel_size) == dim`; dimensions other than 1–3 raise `NotImplementedError`
-(the `else` branch of the interior-face slicing); an extent 0 makes a face count negative and `np.arange` / `np.zeros`
-raise `ValueError`.  All theorems about the tables are stated for the model on every shape; the code only ever
+(the `else` branch of the interior-face slicing); an extent 0 makes a face count negative and `np.zeros` raises
+`ValueError` (two extents 0 already fail when the face index arrays are reshaped, before the dimension check).  All theorems about the tables are stated for the model on every shape; the code only ever
 builds the tables for shapes passing this guard. -/
 def gridGuard (shape : List Nat) (h : List Rat) : Except Err Unit :=
   if h.length < shape.length ∧ 2 ≤ shape.length then .error .index  -- `face_vol` indexes `voxel_size` first
   else if h.length ≠ shape.length then .error .assertion
-  else if shape.length = 0 ∨ 3 < shape.length then .error .notImpl
-  else if shape.any (fun n => n == 0) then .error .value
+  else if 2 ≤ shape.countP (fun n => n == 0) then .error .value     -- reshaping the face index arrays (two extents -1)
+  else if shape.length = 0 ∨ 3 < shape.length then .error .notImpl  -- interior-face slicing, before the tables are allocated
+  else if shape.any (fun n => n == 0) then .error .value            -- a negative face count in `np.zeros`
   else .ok ()
 
 /-- the axes along which `interior_faces[a]` is sliced `1:-1` (code as it is: in 1-D along the normal axis
